@@ -235,6 +235,17 @@ def run(F, R):
         names = agg[0][4]
         cxt = terms.render(bco, agg[0][3][names.index("context")], W, {})
         R.check("C08-R4", "load-before-first-use", "load(" in cxt and "poll(" in cxt, "context <- awaited Context::load(storage)", "the state machine's context is not the awaited result of Context::load: " + cxt[:200])
+        # .. and it is presented as loaded: nothing in build() writes into the loaded context before the machine exists
+        edits = []
+        for (bi_, si_, p_, r_) in bco.field_writes:
+            if bi_ not in bco.reach0:
+                continue
+            ch_ = smod._chain(p_)
+            ty_ = bco.lty(p_["l"])["s"]
+            if "update_check::Context" in ty_ or (ch_ and ch_[0] in ("schedule", "state") and "Context" in ty_):
+                edits.append((".".join(ch_), lib.loc(bco, bi_)))
+        R.check("C08-R4", "context-presented-as-loaded", not edits, "build() hands the loaded context to the state machine unmodified",
+                "build() modifies the loaded context before the state machine exists (the rebuilt machine does not present the last commit): %s" % edits)
     # ---------------------------------------------------------------- R5 commit grouping
     R.rule("C08-R5", "every storage write is followed by a commit before the next request, reboot or policy decision (paths through a failed storage operation are C14's business)")
     sets = [n.idx for n in Sr.nodes if n.idx in Sr.live and Sr.ev[n.idx] and Sr.ev[n.idx][0] == "env" and Sr.ev[n.idx][1] == "Storage" and Sr.ev[n.idx][2] in ("set_int", "set_string", "set_bool", "remove")]
